@@ -252,7 +252,9 @@ def accept : BMode → List Reply → List Obs → Bool
   | m, out, .wrote x :: tr =>
     match trans m x with
     | some (m', r) => accept m' (out ++ optList r) tr
-    | none => false
+    -- a command the reading loop does not know (or anything written to a dead daemon): the daemon dies / stays
+    -- dead; what it had already answered may still be read, then its death notice
+    | none => if m == .running || m == .exited then false else accept .dead out tr
   | _, _, .read .death :: _ => true
   | m, r :: out, .read (.reply r') :: tr => r == r' && accept m out tr
   | .running, [], .read .note :: tr => accept .running [] tr
